@@ -152,7 +152,7 @@ def run(ctx):
     n_random_small = stats["histories"]
 
     # 2. the real STRBUF_LIMIT
-    per_pair = 100 if thorough else 4
+    per_pair = 100 if thorough else 12
     batch = []
     for (limit, ovf) in big:
         for _ in range(per_pair):
@@ -215,7 +215,7 @@ def run(ctx):
             if key in seen:
                 continue
             seen.add(key)
-            budget = [120]
+            budget = [120 if h[0] <= 64 else 25]
 
             def fails(c, which=which, budget=budget):
                 if budget[0] <= 0:
